@@ -60,8 +60,11 @@ def main():
         for spec in a.demo_copy:
             src, dst = spec.split(":")
             d = os.path.join(W, dst)
-            os.makedirs(os.path.dirname(d), exist_ok=True)
-            shutil.copy(os.path.join(a.seed, src), d)
+            os.makedirs(os.path.dirname(d) or W, exist_ok=True)
+            if os.path.isdir(os.path.join(a.seed, src)):
+                shutil.copytree(os.path.join(a.seed, src), d, dirs_exist_ok=True)
+            else:
+                shutil.copy(os.path.join(a.seed, src), d)
     if not a.skip_validate:
         reset(); copy_demo()
         rc0, out0 = sh(a.demo_cmd + " 2>&1 | tail -15", cwd=W, env=env)
@@ -84,10 +87,14 @@ def main():
         # remove the demo again so that checks see only the source change
         # (only the copied files: the patch itself may add new source files)
         for spec in a.demo_copy:
-            try:
-                os.remove(os.path.join(W, spec.split(":")[1]))
-            except FileNotFoundError:
-                pass
+            tgt = os.path.join(W, spec.split(":")[1])
+            if os.path.isdir(tgt):
+                shutil.rmtree(tgt, ignore_errors=True)
+            else:
+                try:
+                    os.remove(tgt)
+                except FileNotFoundError:
+                    pass
     env2 = dict(env, VERIF_REPO=W, VERIF_WORK=WORK, VERIF_EVIDENCE_DIR=EVD)
     verdicts = {}
     for prop in a.props.split(","):
